@@ -13,11 +13,13 @@ namespace Earverif.Bw64
 def fmtPayload (f : Fmt) : Bytes :=
   le 2 1 ++ le 2 f.channels ++ le 4 f.rate ++ le 4 f.bytesPerSecond ++ le 2 f.blockAlign ++ le 2 f.bits
 
-def junkC : Chunk := ⟨idJUNK, 28, le 8 0 ++ le 8 0 ++ le 8 0 ++ le 4 0⟩
-def fmtC (f : Fmt) : Chunk := ⟨idFmt, 16, fmtPayload f⟩
-def chnaC (es : List ChnaEntry) : Chunk := ⟨idChna, (chnaPayload es).length, chnaPayload es⟩
-def metaC (id v : Bytes) : Chunk := ⟨id, v.length, v⟩
-def dataC (szField : Nat) (data : Bytes) : Chunk := ⟨idData, szField, data⟩
+def junkC : Chunk := ⟨idJUNK, 28, le 8 0 ++ le 8 0 ++ le 8 0 ++ le 4 0, []⟩
+def fmtC (f : Fmt) : Chunk := ⟨idFmt, 16, fmtPayload f, []⟩
+def chnaC (es : List ChnaEntry) : Chunk := ⟨idChna, (chnaPayload es).length, chnaPayload es, []⟩
+def metaC (id v : Bytes) : Chunk := ⟨id, v.length, v, pad v.length⟩
+/-- the data chunk; `dp` is the pad actually present (`pad data.length` in a finalised file, nothing in a
+file cut right after the last sample byte) -/
+def dataC (szField : Nat) (data dp : Bytes) : Chunk := ⟨idData, szField, data, dp⟩
 
 def optChnaC : Option (List ChnaEntry) → List Chunk
   | some es => [chnaC es]
@@ -98,10 +100,11 @@ theorem countDistinct_le (l : List Nat) : countDistinct l ≤ l.length := by
 theorem numTracks_le (es : List ChnaEntry) : numTracks es ≤ es.length := by
   have := countDistinct_le (es.map (·.trackIndex)); simpa [numTracks] using this
 
-theorem junkC_ok : junkC.OK none := ⟨by decide, by decide, by decide, by decide⟩
+theorem junkC_ok : junkC.OK none := ⟨by decide, by decide, by decide, by decide, by decide⟩
 
 theorem fmtC_ok (ds : Option Ds64) (hds : ∀ d, ds = some d → d.table = []) (f : Fmt) : (fmtC f).OK ds := by
-  refine ⟨by simp only [fmtC]; decide, by simp only [fmtC]; decide, by simp only [fmtC]; decide, ?_⟩
+  refine ⟨by simp only [fmtC]; decide, by simp only [fmtC]; decide, by simp only [fmtC]; decide, ?_,
+    by simp [fmtC, fmtPayload, le_length]⟩
   cases ds with
   | none => simp [effSize, fmtC, fmtPayload, le_length]
   | some d =>
@@ -111,7 +114,7 @@ theorem fmtC_ok (ds : Option Ds64) (hds : ∀ d, ds = some d → d.table = []) (
 theorem metaC_ok (ds : Option Ds64) (hds : ∀ d, ds = some d → d.table = []) {id v : Bytes}
     (hid : id = idAxml ∨ id = idBext) (hv : v.length < 2 ^ 32) : (metaC id v).OK ds := by
   refine ⟨by rcases hid with rfl | rfl <;> simp only [metaC] <;> decide,
-    by rcases hid with rfl | rfl <;> simp only [metaC] <;> decide, hv, ?_⟩
+    by rcases hid with rfl | rfl <;> simp only [metaC] <;> decide, hv, ?_, by simp [metaC, pad_length]⟩
   cases ds with
   | none => simp [effSize, metaC]
   | some d =>
@@ -122,7 +125,8 @@ theorem chnaC_ok (ds : Option Ds64) (hds : ∀ d, ds = some d → d.table = []) 
     (h : ChnaOK (some es)) : (chnaC es).OK ds := by
   have hl := chnaPayload_length es h.2
   have := h.1
-  refine ⟨by simp only [chnaC]; decide, by simp only [chnaC]; decide, by simp only [chnaC]; omega, ?_⟩
+  refine ⟨by simp only [chnaC]; decide, by simp only [chnaC]; decide, by simp only [chnaC]; omega, ?_,
+    by simp only [chnaC, hl, List.length_nil]; omega⟩
   cases ds with
   | none => simp [effSize, chnaC]
   | some d =>
@@ -267,20 +271,21 @@ def effMeta (v0 vF : Option Bytes) : Option Bytes :=
   if truthy v0 then v0 else if truthy vF then vF else none
 
 /-- the chunks after the fixed header part: `fmt `, constructor chunks, `data`, late chunks -/
-def bodyC (fmt : Fmt) (c0 : Option (List ChnaEntry)) (a0 b0 : Option Bytes) (sz : Nat) (data : Bytes)
+def bodyC (fmt : Fmt) (c0 : Option (List ChnaEntry)) (a0 b0 : Option Bytes) (sz : Nat) (data dp : Bytes)
     (cF : Option (List ChnaEntry)) (aF bF : Option Bytes) : List Chunk :=
-  fmtC fmt :: (preC c0 a0 b0 ++ dataC sz data :: lateC c0.isSome (truthy a0) (truthy b0) cF aF bF)
+  fmtC fmt :: (preC c0 a0 b0 ++ dataC sz data dp :: lateC c0.isSome (truthy a0) (truthy b0) cF aF bF)
 
 theorem chunk_found {f pre : Bytes} {A B : List Chunk} {c : Chunk}
-    (hf : f = pre ++ encAll (A ++ c :: B)) (hid : c.id.length = 4) (hB : NoId c.id B) (t : Table) :
+    {tail : Bytes} (hf : f = pre ++ (encAll (A ++ c :: B) ++ tail)) (hid : c.id.length = 4) (hB : NoId c.id B)
+    (t : Table) :
     tlookup (walkTable pre.length (A ++ c :: B) t) c.id = some (c.body.length, pre.length + (encAll A).length) ∧
     ∃ P R, f = P ++ (c.body ++ R) ∧ P.length = pre.length + (encAll A).length + 8 := by
   refine ⟨tlookup_walkTable_found c B hB A _ _, pre ++ encAll A ++ c.id ++ le 4 c.szField,
-    pad c.body.length ++ encAll B, by simp [hf, Chunk.enc], by simp [le_length, hid]; omega⟩
+    c.padB ++ (encAll B ++ tail), by simp [hf, Chunk.enc], by simp [le_length, hid]; omega⟩
 
 section
 variable {f pre : Bytes} {F : List Chunk} {fmt : Fmt} {c0 cF : Option (List ChnaEntry)} {a0 b0 aF bF : Option Bytes}
-  {sz : Nat} {data : Bytes}
+  {sz : Nat} {data dp tail : Bytes}
 
 theorem optMetaC_falsy {id : Bytes} {v : Option Bytes} (h : truthy v = false) : optMetaC id v = [] := by
   rcases v with _ | _ | ⟨x, xs⟩ <;> simp_all [optMetaC, truthy]
@@ -290,9 +295,9 @@ theorem optMetaC_falsy {id : Bytes} {v : Option Bytes} (h : truthy v = false) : 
 theorem truthy_cases (v : Option Bytes) : truthy v = false ∨ ∃ x xs, v = some (x :: xs) := by
   rcases v with _ | _ | ⟨x, xs⟩ <;> simp [truthy]
 
-theorem read_axml (hf : f = pre ++ encAll (F ++ bodyC fmt c0 a0 b0 sz data cF aF bF))
+theorem read_axml (hf : f = pre ++ (encAll (F ++ bodyC fmt c0 a0 b0 sz data dp cF aF bF) ++ tail))
     (hF : ∀ x ∈ F, x.id = idJUNK) :
-    chunkData f (walkTable pre.length (F ++ bodyC fmt c0 a0 b0 sz data cF aF bF) []) idAxml = effMeta a0 aF := by
+    chunkData f (walkTable pre.length (F ++ bodyC fmt c0 a0 b0 sz data dp cF aF bF) []) idAxml = effMeta a0 aF := by
   rcases truthy_cases a0 with h0 | ⟨x, xs, rfl⟩
   · rcases truthy_cases aF with hF' | ⟨y, ys, rfl⟩
     · -- absent
@@ -302,8 +307,8 @@ theorem read_axml (hf : f = pre ++ encAll (F ++ bodyC fmt c0 a0 b0 sz data cF aF
         simp only [bodyC, preC, lateC, optMetaC_falsy h0, optMetaC_falsy hF']
         no_id
     · -- written by `close`
-      have hcs : F ++ bodyC fmt c0 a0 b0 sz data cF (some (y :: ys)) bF =
-          (F ++ fmtC fmt :: (optChnaC c0 ++ optMetaC idBext b0) ++ dataC sz data ::
+      have hcs : F ++ bodyC fmt c0 a0 b0 sz data dp cF (some (y :: ys)) bF =
+          (F ++ fmtC fmt :: (optChnaC c0 ++ optMetaC idBext b0) ++ dataC sz data dp ::
             (if c0.isSome then [] else optChnaC cF)) ++ metaC idAxml (y :: ys) ::
             (if truthy b0 then [] else optMetaC idBext bF) := by
         simp only [bodyC, preC, lateC, optMetaC_falsy h0, h0]
@@ -313,9 +318,9 @@ theorem read_axml (hf : f = pre ++ encAll (F ++ bodyC fmt c0 a0 b0 sz data cF aF
         (by show NoId idAxml _; no_id) []).trans ?_
       simp [effMeta, metaC, h0]
   · -- written by the constructor
-    have hcs : F ++ bodyC fmt c0 (some (x :: xs)) b0 sz data cF aF bF =
+    have hcs : F ++ bodyC fmt c0 (some (x :: xs)) b0 sz data dp cF aF bF =
         (F ++ fmtC fmt :: optChnaC c0) ++ metaC idAxml (x :: xs) ::
-          (optMetaC idBext b0 ++ dataC sz data ::
+          (optMetaC idBext b0 ++ dataC sz data dp ::
             ((if c0.isSome then [] else optChnaC cF) ++ (if truthy b0 then [] else optMetaC idBext bF))) := by
       simp [bodyC, preC, lateC, optMetaC, truthy]
     rw [hcs] at hf ⊢
@@ -323,9 +328,9 @@ theorem read_axml (hf : f = pre ++ encAll (F ++ bodyC fmt c0 a0 b0 sz data cF aF
       (by show NoId idAxml _; no_id) []).trans ?_
     simp [effMeta, truthy, metaC]
 
-theorem read_bext (hf : f = pre ++ encAll (F ++ bodyC fmt c0 a0 b0 sz data cF aF bF))
+theorem read_bext (hf : f = pre ++ (encAll (F ++ bodyC fmt c0 a0 b0 sz data dp cF aF bF) ++ tail))
     (hF : ∀ x ∈ F, x.id = idJUNK) :
-    chunkData f (walkTable pre.length (F ++ bodyC fmt c0 a0 b0 sz data cF aF bF) []) idBext = effMeta b0 bF := by
+    chunkData f (walkTable pre.length (F ++ bodyC fmt c0 a0 b0 sz data dp cF aF bF) []) idBext = effMeta b0 bF := by
   rcases truthy_cases b0 with h0 | ⟨x, xs, rfl⟩
   · rcases truthy_cases bF with hF' | ⟨y, ys, rfl⟩
     · -- absent
@@ -335,8 +340,8 @@ theorem read_bext (hf : f = pre ++ encAll (F ++ bodyC fmt c0 a0 b0 sz data cF aF
         simp only [bodyC, preC, lateC, optMetaC_falsy h0, optMetaC_falsy hF']
         no_id
     · -- written by `close`
-      have hcs : F ++ bodyC fmt c0 a0 b0 sz data cF aF (some (y :: ys)) =
-          (F ++ fmtC fmt :: (optChnaC c0 ++ optMetaC idAxml a0) ++ dataC sz data ::
+      have hcs : F ++ bodyC fmt c0 a0 b0 sz data dp cF aF (some (y :: ys)) =
+          (F ++ fmtC fmt :: (optChnaC c0 ++ optMetaC idAxml a0) ++ dataC sz data dp ::
             ((if c0.isSome then [] else optChnaC cF) ++ (if truthy a0 then [] else optMetaC idAxml aF))) ++
             metaC idBext (y :: ys) :: [] := by
         simp only [bodyC, preC, lateC, optMetaC_falsy h0, h0]
@@ -346,9 +351,9 @@ theorem read_bext (hf : f = pre ++ encAll (F ++ bodyC fmt c0 a0 b0 sz data cF aF
         (by show NoId idBext _; no_id) []).trans ?_
       simp [effMeta, metaC, h0]
   · -- written by the constructor
-    have hcs : F ++ bodyC fmt c0 a0 (some (x :: xs)) sz data cF aF bF =
+    have hcs : F ++ bodyC fmt c0 a0 (some (x :: xs)) sz data dp cF aF bF =
         (F ++ fmtC fmt :: (optChnaC c0 ++ optMetaC idAxml a0)) ++ metaC idBext (x :: xs) ::
-          (dataC sz data ::
+          (dataC sz data dp ::
             ((if c0.isSome then [] else optChnaC cF) ++ (if truthy a0 then [] else optMetaC idAxml aF))) := by
       simp [bodyC, preC, lateC, optMetaC, truthy]
     rw [hcs] at hf ⊢
@@ -356,17 +361,17 @@ theorem read_bext (hf : f = pre ++ encAll (F ++ bodyC fmt c0 a0 b0 sz data cF aF
       (by show NoId idBext _; no_id) []).trans ?_
     simp [effMeta, truthy, metaC]
 
-theorem read_chna (hf : f = pre ++ encAll (F ++ bodyC fmt c0 a0 b0 sz data cF aF bF))
+theorem read_chna (hf : f = pre ++ (encAll (F ++ bodyC fmt c0 a0 b0 sz data dp cF aF bF) ++ tail))
     (hF : ∀ x ∈ F, x.id = idJUNK) :
     match effChna c0 cF with
-    | none => tlookup (walkTable pre.length (F ++ bodyC fmt c0 a0 b0 sz data cF aF bF) []) idChna = none
+    | none => tlookup (walkTable pre.length (F ++ bodyC fmt c0 a0 b0 sz data dp cF aF bF) []) idChna = none
     | some es => ∃ cpos P R,
-        tlookup (walkTable pre.length (F ++ bodyC fmt c0 a0 b0 sz data cF aF bF) []) idChna =
+        tlookup (walkTable pre.length (F ++ bodyC fmt c0 a0 b0 sz data dp cF aF bF) []) idChna =
           some ((chnaPayload es).length, cpos) ∧ f = P ++ (chnaPayload es ++ R) ∧ P.length = cpos + 8 := by
   cases c0 with
   | some es =>
-    have hcs : F ++ bodyC fmt (some es) a0 b0 sz data cF aF bF =
-        (F ++ [fmtC fmt]) ++ chnaC es :: ((optMetaC idAxml a0 ++ optMetaC idBext b0) ++ dataC sz data ::
+    have hcs : F ++ bodyC fmt (some es) a0 b0 sz data dp cF aF bF =
+        (F ++ [fmtC fmt]) ++ chnaC es :: ((optMetaC idAxml a0 ++ optMetaC idBext b0) ++ dataC sz data dp ::
           ((if truthy a0 then [] else optMetaC idAxml aF) ++ (if truthy b0 then [] else optMetaC idBext bF))) := by
       simp [bodyC, preC, lateC, optChnaC]
     rw [hcs] at hf ⊢
@@ -383,8 +388,8 @@ theorem read_chna (hf : f = pre ++ encAll (F ++ bodyC fmt c0 a0 b0 sz data cF aF
         simp only [bodyC, preC, lateC, optChnaC]
         no_id
     | some es =>
-      have hcs : F ++ bodyC fmt none a0 b0 sz data (some es) aF bF =
-          (F ++ fmtC fmt :: (optMetaC idAxml a0 ++ optMetaC idBext b0) ++ [dataC sz data]) ++ chnaC es ::
+      have hcs : F ++ bodyC fmt none a0 b0 sz data dp (some es) aF bF =
+          (F ++ fmtC fmt :: (optMetaC idAxml a0 ++ optMetaC idBext b0) ++ [dataC sz data dp]) ++ chnaC es ::
             ((if truthy a0 then [] else optMetaC idAxml aF) ++ (if truthy b0 then [] else optMetaC idBext bF)) := by
         simp [bodyC, preC, lateC, optChnaC]
       rw [hcs] at hf ⊢
@@ -392,12 +397,12 @@ theorem read_chna (hf : f = pre ++ encAll (F ++ bodyC fmt c0 a0 b0 sz data cF aF
         (by show NoId idChna _; no_id) []
       exact ⟨_, P, R, h1, h2, h3⟩
 
-theorem read_fmt (hf : f = pre ++ encAll (F ++ bodyC fmt c0 a0 b0 sz data cF aF bF))
+theorem read_fmt (hf : f = pre ++ (encAll (F ++ bodyC fmt c0 a0 b0 sz data dp cF aF bF) ++ tail))
     (hF : ∀ x ∈ F, x.id = idJUNK) :
-    ∃ fpos, tlookup (walkTable pre.length (F ++ bodyC fmt c0 a0 b0 sz data cF aF bF) []) idFmt = some (16, fpos) ∧
+    ∃ fpos, tlookup (walkTable pre.length (F ++ bodyC fmt c0 a0 b0 sz data dp cF aF bF) []) idFmt = some (16, fpos) ∧
       readAt f (fpos + 8) 16 = fmtPayload fmt := by
-  have hcs : F ++ bodyC fmt c0 a0 b0 sz data cF aF bF =
-      F ++ fmtC fmt :: (preC c0 a0 b0 ++ dataC sz data :: lateC c0.isSome (truthy a0) (truthy b0) cF aF bF) := rfl
+  have hcs : F ++ bodyC fmt c0 a0 b0 sz data dp cF aF bF =
+      F ++ fmtC fmt :: (preC c0 a0 b0 ++ dataC sz data dp :: lateC c0.isSome (truthy a0) (truthy b0) cF aF bF) := rfl
   rw [hcs] at hf ⊢
   obtain ⟨h1, P, R, h2, h3⟩ := chunk_found hf (c := fmtC fmt) (by simp only [fmtC]; decide)
     (by show NoId idFmt _; simp only [preC, lateC]; no_id) []
@@ -405,26 +410,26 @@ theorem read_fmt (hf : f = pre ++ encAll (F ++ bodyC fmt c0 a0 b0 sz data cF aF 
   refine ⟨_, by rw [← h16]; exact h1, ?_⟩
   exact readAt_mid h2 h3 h16
 
-theorem read_data (hf : f = pre ++ encAll (F ++ bodyC fmt c0 a0 b0 sz data cF aF bF))
+theorem read_data (hf : f = pre ++ (encAll (F ++ bodyC fmt c0 a0 b0 sz data dp cF aF bF) ++ tail))
     (hF : ∀ x ∈ F, x.id = idJUNK) :
-    ∃ dpos, tlookup (walkTable pre.length (F ++ bodyC fmt c0 a0 b0 sz data cF aF bF) []) idData =
+    ∃ dpos, tlookup (walkTable pre.length (F ++ bodyC fmt c0 a0 b0 sz data dp cF aF bF) []) idData =
         some (data.length, dpos) ∧ readAt f (dpos + 8) data.length = data := by
-  have hcs : F ++ bodyC fmt c0 a0 b0 sz data cF aF bF =
-      (F ++ fmtC fmt :: preC c0 a0 b0) ++ dataC sz data :: lateC c0.isSome (truthy a0) (truthy b0) cF aF bF := by
+  have hcs : F ++ bodyC fmt c0 a0 b0 sz data dp cF aF bF =
+      (F ++ fmtC fmt :: preC c0 a0 b0) ++ dataC sz data dp :: lateC c0.isSome (truthy a0) (truthy b0) cF aF bF := by
     simp [bodyC]
   rw [hcs] at hf ⊢
-  obtain ⟨h1, P, R, h2, h3⟩ := chunk_found hf (c := dataC sz data) (by simp only [dataC]; decide)
+  obtain ⟨h1, P, R, h2, h3⟩ := chunk_found hf (c := dataC sz data dp) (by simp only [dataC]; decide)
     (by show NoId idData _; simp only [lateC]; no_id) []
   exact ⟨_, h1, readAt_mid h2 h3 rfl⟩
 
 /-- **After the walk.** On a file whose chunks are those the writer lays out, the rest of the reader's
 constructor succeeds without warnings and the accessors return what was written. -/
 theorem finishRead_written {ff : Bytes} {ds : Option Ds64} (hfmt : FmtOK fmt) (hc0 : ChnaOK c0) (hcF : ChnaOK cF)
-    (hf : f = pre ++ encAll (F ++ bodyC fmt c0 a0 b0 sz data cF aF bF))
+    (hf : f = pre ++ (encAll (F ++ bodyC fmt c0 a0 b0 sz data dp cF aF bF) ++ tail))
     (hF : ∀ x ∈ F, x.id = idJUNK)
     (hds : ∀ d, ds = some d → d.dataSize = data.length)
     (hdata : data.length % fmt.blockAlign = 0) :
-    finishRead f ff ds (walkTable pre.length (F ++ bodyC fmt c0 a0 b0 sz data cF aF bF) []) [] =
+    finishRead f ff ds (walkTable pre.length (F ++ bodyC fmt c0 a0 b0 sz data dp cF aF bF) []) [] =
       .ok (⟨ff, ⟨1, fmt.channels, fmt.rate, fmt.bits⟩, data.length / fmt.blockAlign, data,
             effChna c0 cF, effMeta a0 aF, effMeta b0 bF⟩, []) := by
   obtain ⟨fpos, hf1, hf2⟩ := read_fmt hf hF
